@@ -38,6 +38,15 @@ type pcase struct {
 	N        int      `json:"n"`
 	Events   []pevent `json:"events"`
 	FailSend int      `json:"fail_send,omitempty"` // k > 0: the k-th server.Send fails (the subscriber has gone)
+	Names    []string `json:"names,omitempty"`     // the member names the Group is built with (naming.go); none: m0, m1, ...
+}
+
+// key: the full input (the driver's line has no names: the model's members are their indices).
+func (p pcase) key() string {
+	if p.Names == nil {
+		return p.line()
+	}
+	return p.line() + " names=" + quoteNames(p.Names)
 }
 
 func (p pcase) line() string {
@@ -82,11 +91,20 @@ type fedLightClient struct {
 	traits.LightApiClient
 	ch   []chan []int
 	ctxs *ctxLog
+	tab  *nameTable
+}
+
+// strayFeed: what a call that belongs to no entry of the member list is given: a stream that never speaks.
+func strayFeed(tab *nameTable, ch []chan []int, name string) chan []int {
+	if i := tab.resolve(name); i >= 0 {
+		return ch[i]
+	}
+	return make(chan []int)
 }
 
 func (c *fedLightClient) PullBrightness(ctx context.Context, in *traits.PullBrightnessRequest, _ ...grpc.CallOption) (grpc.ServerStreamingClient[traits.PullBrightnessResponse], error) {
 	c.ctxs.add(ctx)
-	return &fedLightStream{ctx: ctx, ch: c.ch[memberIndex(in.Name)], name: in.Name}, nil
+	return &fedLightStream{ctx: ctx, ch: strayFeed(c.tab, c.ch, in.Name), name: in.Name}, nil
 }
 
 type fedLightStream struct {
@@ -133,6 +151,7 @@ type fedOnOffClient struct {
 	traits.OnOffApiClient
 	ch   []chan []int
 	ctxs *ctxLog
+	tab  *nameTable
 }
 
 // ctxLog: the contexts the member streams were opened with.
@@ -163,7 +182,7 @@ func (l *ctxLog) state() string {
 
 func (c *fedOnOffClient) PullOnOff(ctx context.Context, in *traits.PullOnOffRequest, _ ...grpc.CallOption) (grpc.ServerStreamingClient[traits.PullOnOffResponse], error) {
 	c.ctxs.add(ctx)
-	return &fedOnOffStream{ctx: ctx, ch: c.ch[memberIndex(in.Name)], name: in.Name}, nil
+	return &fedOnOffStream{ctx: ctx, ch: strayFeed(c.tab, c.ch, in.Name), name: in.Name}, nil
 }
 
 type fedOnOffStream struct {
@@ -214,10 +233,10 @@ func runPullLoop(p pcase) (out string) {
 		}
 	}()
 	base := goroutineIDs()
-	names := make([]string, p.N)
+	names := namesOr(p.Names, p.N)
+	tab := newNameTable(names)
 	chs := make([]chan []int, p.N)
-	for i := range names {
-		names[i] = memberName(i)
+	for i := range chs {
 		chs[i] = make(chan []int)
 	}
 	ctx, cancel := context.WithCancel(context.Background())
@@ -226,15 +245,24 @@ func runPullLoop(p pcase) (out string) {
 	ctxs := &ctxLog{}
 	done := make(chan error, 1)
 	go func() {
+		// PullX runs its loop on this goroutine: a panic there (a slot out of range, say) is an outcome, not the end of the harness
+		defer func() {
+			if r := recover(); r != nil {
+				done <- loopPanic{strings.ReplaceAll(fmt.Sprint(r), " ", "_")}
+			}
+		}()
 		if p.Trait == "light" {
-			done <- lightpb.NewGroup(&fedLightClient{ch: chs, ctxs: ctxs}, names...).PullBrightness(&traits.PullBrightnessRequest{Name: "G"}, &fwdLightServer{ctx: ctx, rec: rec})
+			done <- lightpb.NewGroup(&fedLightClient{ch: chs, ctxs: ctxs, tab: tab}, names...).PullBrightness(&traits.PullBrightnessRequest{Name: "G"}, &fwdLightServer{ctx: ctx, rec: rec})
 		} else {
-			done <- onoffpb.NewGroup(&fedOnOffClient{ch: chs, ctxs: ctxs}, names...).PullOnOff(&traits.PullOnOffRequest{Name: "G"}, &fwdOnOffServer{ctx: ctx, rec: rec})
+			done <- onoffpb.NewGroup(&fedOnOffClient{ch: chs, ctxs: ctxs, tab: tab}, names...).PullOnOff(&traits.PullOnOffRequest{Name: "G"}, &fwdOnOffServer{ctx: ctx, rec: rec})
 		}
 	}()
 	// ended: the subscription has returned by itself after k messages (the harness has not cancelled anything):
 	// which error, and are the members' contexts cancelled (the remaining members are cancelled once the outcome is decided)
 	ended := func(err error, k int) string {
+		if lp, ok := err.(loopPanic); ok {
+			return "panic:" + lp.msg
+		}
 		class := "?" + errClassCode(err)
 		switch {
 		case err == errSubscriberGone:
@@ -246,6 +274,14 @@ func runPullLoop(p pcase) (out string) {
 	}
 	if _, ok := waitQuietOutside(base); !ok {
 		return "!stuck:start"
+	}
+	// every entry of the member list has been subscribed to, once, under its own name (the strategy is All and no
+	// member has failed); an entry left out is only reported when the script wants to hear from it (below)
+	namesOff := func() string {
+		return fmt.Sprintf("!names:not-called=%s;stray-calls=%s", dash(strings.Join(tab.missing(), ",")), dash(strings.Join(tab.strayCalls(), ",")))
+	}
+	if len(tab.strayCalls()) > 0 {
+		return namesOff()
 	}
 	if p.N == 0 {
 		// no members: All over nothing returns at once, there is nobody to deliver a message
@@ -265,6 +301,9 @@ func runPullLoop(p pcase) (out string) {
 	for k, e := range p.Events {
 		var endErr error
 		took, over := false, false
+		if !tab.claimed(e.Member) {
+			return namesOff()
+		}
 		if !await(base, func() bool {
 			select {
 			case chs[e.Member] <- e.Vals:
@@ -292,9 +331,10 @@ func runPullLoop(p pcase) (out string) {
 		}
 	}
 	cancel()
+	var endErr error
 	if !await(base, func() bool {
 		select {
-		case <-done:
+		case endErr = <-done:
 			return true
 		default:
 			return false
@@ -303,8 +343,18 @@ func runPullLoop(p pcase) (out string) {
 		return "!stuck:does-not-end-on-cancel"
 	}
 	waitQuietOutside(base)
+	if lp, ok := endErr.(loopPanic); ok {
+		return "panic:" + lp.msg
+	}
+	if len(tab.missing()) > 0 {
+		return namesOff()
+	}
 	return "fwd=" + dash(strings.Join(rec.list(), ",")) + " end=harness"
 }
+
+type loopPanic struct{ msg string }
+
+func (l loopPanic) Error() string { return "panic: " + l.msg }
 
 // pullSpec: the forwarded sequence by the property's own words.
 func pullSpec(p pcase) string {
@@ -378,11 +428,14 @@ func sameFwd(a, b string) bool {
 }
 
 func pullLoopMonitor(mon *lib.Monitor, p pcase, code string) {
-	mon.Eval(p.line(), len(p.Events) > 0, nil)
+	mon.Eval(p.key(), len(p.Events) > 0, nil)
 	sig := "C17/" + p.fn() + "/loop/"
 	switch {
 	case strings.HasPrefix(code, "panic"):
 		mon.Violate(sig+"panic", "the subscription panicked", p, "no panic", code)
+	case strings.HasPrefix(code, "!names"):
+		mon.Violate(sig+"member-names", "not: every entry of the Group's member list - whatever its name: blank, repeated, odd - is subscribed to exactly once under its own name",
+			p, "every entry of "+quoteNames(namesOr(p.Names, p.N))+" called once", code)
 	case strings.HasPrefix(code, "!"):
 		mon.Violate(sig+"stalled", "the subscription did not take a member's message / did not end", p, pullSpec(p), code)
 	case !sameFwd(code, pullSpec(p)):
@@ -414,8 +467,24 @@ func pullLoopCases(f lib.Flags, rng *rand.Rand) []pcase {
 			}
 		}
 	}
+	// the member list is any list of strings (naming.go): each entry blank in turn, names that look like another
+	// member's, every entry blank / the same name, a name repeated at the end x every member speaking first x every
+	// member speaking second
+	for _, tr := range []string{"light", "onoff"} {
+		for n := 1; n <= 3; n++ {
+			for _, names := range nameSchemes(n, true) {
+				for a := 0; a < n; a++ {
+					out = append(out, pcase{PullLoop: true, Trait: tr, N: n, Names: names, Events: []pevent{{Member: a, Vals: []int{2}}}})
+					for b := 0; b < n; b++ {
+						out = append(out, pcase{PullLoop: true, Trait: tr, N: n, Names: names, Events: []pevent{{Member: a, Vals: []int{2}}, {Member: b, Vals: []int{3}}}, FailSend: (a + b) % 3})
+					}
+				}
+			}
+		}
+	}
 	for k := 0; k < f.N(300, 10000); k++ {
 		p := pcase{PullLoop: true, Trait: []string{"light", "onoff"}[rng.Intn(2)], N: 1 + rng.Intn(4)}
+		p.Names = randomNames(p.N, true, rng)
 		vals := 2 + rng.Intn(4) // few distinct values: repeated group values (dedup) are frequent
 		if p.Trait == "onoff" {
 			vals = 3
@@ -439,10 +508,11 @@ func runPullLoops(f lib.Flags, res *lib.Result, drv *lib.Driver, rng *rand.Rand)
 	tie := res.Tie("group-pull-loop", "K4",
 		"the subscription loop of lightpb.Group.PullBrightness / onoffpb.Group.PullOnOff over scripted member streams fed by the harness one message at a time (whole-process quiescence between messages): "+
 			"EXHAUSTIVE for 0..2 members x every sequence of at most 2 messages x message content {no change, one change, another, two changes} x {no Send fails, the 1st, the 2nd}; random: 1..4 members, 0..8 messages of 0..3 changes over few distinct values, a failing k-th Send (k<=3) in a third of them. "+
+			"MEMBER NAMES are an input of the code the model does not have (its members are their indices): 1..3 members x {each entry blank in turn, names that look like another member's, every entry blank, every entry the same name, a name repeated} x every first / second speaker, and half of the random cases draw odd names (blank, repeated, non-printable, 300 characters); the scripted client assigns a call to the entry of the list it names. "+
 			"model = driver op `pull` (slots, reduction, dedup against the last value forwarded, end of the loop on a Send error); compared: the sequence of values forwarded, and whether the subscription ended by itself: after which message, with which error, members' contexts cancelled. non-trivial = at least one message; distinct by full input")
 	mon := res.Monitor("group-pull-loop-contract",
 		"the same executions against the loop's contract stated independently: after each member message with changes the group's value is the reduction (light: mean, onoff: ON wins) of the members' latest values, "+
-			"and it is forwarded exactly when it differs from the value forwarded last; the subscription takes every message and ends on cancellation; when a Send fails it ends by itself with Send's error after cancelling every member")
+			"and it is forwarded exactly when it differs from the value forwarded last; the subscription takes every message and ends on cancellation; when a Send fails it ends by itself with Send's error after cancelling every member; every entry of the member list - blank, repeated or odd names included - is subscribed to exactly once under its own name, and nothing else is; no panic")
 	cases := pullLoopCases(f, rng)
 	var answers []string
 	if drv != nil {
@@ -483,20 +553,23 @@ func runPullLoops(f lib.Flags, res *lib.Result, drv *lib.Driver, rng *rand.Rand)
 			for k := 0; k < retries; k++ {
 				if c2 := runPullLoop(p); !suspicious(c2) {
 					mon.Count("retried-and-vanished")
-					mon.Count("retried-and-vanished:" + p.line() + " first=" + code)
+					mon.Count("retried-and-vanished:" + p.key() + " first=" + code)
 					code = c2
 					break
 				}
 			}
 		}
 		if answers != nil {
-			tie.Record(p.line(), len(p.Events) > 0, p, answers[i], code)
+			tie.Record(p.key(), len(p.Events) > 0, p, answers[i], code)
 		}
 		if strings.HasPrefix(code, "!stuck") {
 			stalled++
 		}
 		tie.Count(p.Trait)
 		tie.Count(fmt.Sprintf("n=%d", p.N))
+		if p.Names != nil {
+			tie.Count("odd-member-names")
+		}
 		if strings.Contains(code, "end=senderr") {
 			tie.Count("ended-by-send-error")
 		}
